@@ -150,3 +150,54 @@ Proof. intros (C1 & C2 & C3). apply roundtrip_flow; assumption. Qed.
 
 Lemma refuted_http2_table : import_req_version V20 = V11 /\ import_resp_version V20 = V11 /\ ~ version_kept V20.
 Proof. exact http2_not_kept. Qed.
+
+(* ---------------------------------------------------------------- order of the entries *)
+(* The HTTP flows of the list handed to the exporter, in list order. *)
+Fixpoint http_flows (flows : list flow) : list (request * option response) :=
+  match flows with
+  | [] => []
+  | HttpFlow rq rs :: rest => (rq, rs) :: http_flows rest
+  | OtherFlow :: rest => http_flows rest
+  end.
+
+(* make_har walks the list it is given, front to back: whenever the export succeeds, entry number i is the entry of
+   the i-th HTTP flow of that list.  Nothing else about the flows (creation or start times, completion order)
+   has any influence: the model has no such input. *)
+Lemma entry_order L flows es : make_har L flows = Ok es ->
+  Forall2 (fun x e => flow_entry L (fst x) (snd x) = Ok e) (http_flows flows) es.
+Proof.
+  revert es. induction flows as [|f flows IH]; intros es Hm.
+  - cbn in Hm. inversion Hm. constructor.
+  - destruct f as [rq rs|]; cbn [make_har http_flows] in *.
+    + destruct (flow_entry L rq rs) as [e| | |] eqn:He; cbn [bind] in Hm; try discriminate Hm.
+      destruct (make_har L flows) as [es'| | |] eqn:Hr; cbn [bind] in Hm; try discriminate Hm.
+      inversion Hm; subst es. constructor; [exact He|]. apply IH. reflexivity.
+    + apply IH. exact Hm.
+Qed.
+
+(* exporting a concatenation = concatenating the exports *)
+Lemma make_har_app L fs1 fs2 es1 es2 :
+  make_har L fs1 = Ok es1 -> make_har L fs2 = Ok es2 -> make_har L (fs1 ++ fs2) = Ok (es1 ++ es2).
+Proof.
+  revert es1. induction fs1 as [|f fs1 IH]; intros es1 H1 H2.
+  - cbn in H1. inversion H1. exact H2.
+  - destruct f as [rq rs|]; cbn [make_har app] in *.
+    + destruct (flow_entry L rq rs) as [e| | |]; cbn [bind] in *; try discriminate H1.
+      destruct (make_har L fs1) as [es'| | |]; cbn [bind] in *; try discriminate H1.
+      inversion H1; subst es1. rewrite (IH es' eq_refl H2). reflexivity.
+    + apply IH; assumption.
+Qed.
+
+(* the reader keeps the order of the entries: the i-th imported flow is the import of the i-th entry *)
+Lemma import_order se L es imported st : import_har se L es = (imported, st) ->
+  Forall2 (fun e i => request_to_flow se L e = Ok i) (firstn (length imported) es) imported.
+Proof.
+  revert imported st. induction es as [|e es IH]; intros imported st H.
+  - cbn in H. inversion H. constructor.
+  - cbn [import_har] in H. destruct (request_to_flow se L e) as [i| | |] eqn:Hr.
+    + destruct (import_har se L es) as [fs st'] eqn:Hi. inversion H; subst. cbn [length firstn].
+      constructor; [exact Hr|]. eapply IH. reflexivity.
+    + inversion H. constructor.
+    + inversion H. constructor.
+    + inversion H. constructor.
+Qed.
